@@ -378,6 +378,9 @@ func main() {
 			for i := range A {
 				for j := i; j < len(A); j++ {
 					add(-1, init, [][]opSpec{{A[i]}, {A[j]}})
+					// the same pair without the sleep-set reduction (whose independence relation only sees the
+					// hooked cells), every schedule with at most 3 preemptions
+					add(3, init, [][]opSpec{{A[i]}, {A[j]}})
 				}
 			}
 			// two threads: two operations against one
